@@ -20,6 +20,7 @@ import shutil
 import subprocess
 import sys
 import tempfile
+import threading
 import time
 
 HERE = os.path.dirname(os.path.abspath(__file__))
@@ -150,6 +151,12 @@ def record(scenarios, workdir, tag):
     """runs the scenarios against the real package in a fresh interpreter"""
     scf = os.path.join(workdir, "sc-%s.json" % tag)
     trf = os.path.join(workdir, "tr-%s.json" % tag)
+    for sc in scenarios:
+        # fields added to the configuration over time (replays recorded before they existed)
+        sc["cfg"].setdefault("cwait", [0] * sc["cfg"]["n"])
+        sc["cfg"].setdefault("preshut", False)
+        sc["cfg"].setdefault("scdur", [0] * sc["cfg"]["n"])
+        sc["cfg"].setdefault("ucancel", -1)
     with open(scf, "w") as out:
         json.dump(scenarios, out)
     env = dict(os.environ, VERIF_REPO=REPO, PYTHONHASHSEED="0", ASYNCIOJOBS_VERIF="1")
@@ -165,14 +172,26 @@ AT = re.compile(r'^"AT\|(\d+)\|(\d+)\|([^|"]*)\|(-?\d+)\|([^|"]*)"$')
 SYM = re.compile(r'^"SYM\|(\d+)\|(.*)"$')
 
 
+ACTION_COV = {}
+ACTION_LOCK = threading.Lock()
+
+
 def validate(trf, workdir, diag=False):
     """-> (accepted tids, frontier {tid: (l, {(k, n, why)})}, generated, distinct);
     with diag=True the frontier dict also has key ("sym", tid) -> list of properties"""
     cfg = "OrchestraTraceDiag.cfg" if diag else "OrchestraTrace.cfg"
     rc, out = tlc.run("OrchestraTrace.tla", cfg, env={"TRACE_FILE": trf}, workers=1,
-                      scratch=workdir, heap="3g")
+                      scratch=workdir, heap="3g", extra=None if diag else ["-coverage", "1"])
     if "Model checking completed" not in out:
-        raise tlc.TlcFailure("trace validation did not complete:\n" + out[-3000:])
+        errs = [ln for ln in out.splitlines() if "Error" in ln or "xception" in ln or "Attempted" in ln]
+        raise tlc.TlcFailure("trace validation did not complete:\n" + "\n".join(errs[:20]) + "\n" + out[-1500:])
+    if not diag:
+        # which actions of the trace specification the traces exercised (L* = logged events,
+        # Q* = silent actions inferred by TLC): transitions taken, summed over the shards
+        with ACTION_LOCK:
+            for name, (_, total) in tlc.coverage(out).items():
+                if name[0] in "LQ" and name[1:2].isupper():
+                    ACTION_COV[name] = ACTION_COV.get(name, 0) + total
     acc = set()
     front = {}
     for line in out.splitlines():
@@ -398,7 +417,8 @@ def flatten(cfg):
     flat = {"n": m, "pure": cfg["pure"], "kind": ["sched"] + ["job"] * (m - 1),
             "parent": [0] + [1] * (m - 1),
             "req": [[]] + [sorted(newid[r] for r in flatreq(a)) for a in atoms],
-            "horizon": cfg.get("horizon", 0), "ucancel": cfg.get("ucancel", -1)}
+            "horizon": cfg.get("horizon", 0), "ucancel": cfg.get("ucancel", -1),
+            "cwait": [0] * m, "preshut": bool(cfg.get("preshut", False))}
     for key in ("crit", "forever", "win", "tmo", "stmo", "dur", "out", "sdur", "cdur", "scdur"):
         flat[key] = [cfg[key][0]] + [cfg[key][a - 1] for a in atoms]
     back = [1] + atoms
